@@ -38,7 +38,7 @@ pub fn hist_cfg(id: &str, thorough: bool) -> Option<HistCfg> {
         "C01" => HistCfg {
             id: "C01",
             on: vec!["C01"],
-            mix: Mix { rich: true, ..base },
+            mix: Mix { rich: true, faultymeld: 1, ..base },
             max_len: len(60, 140),
             n_min: 2,
             n_max: if thorough { 4 } else { 3 },
@@ -135,7 +135,7 @@ pub fn hist_cfg(id: &str, thorough: bool) -> Option<HistCfg> {
         "C11" => HistCfg {
             id: "C11",
             on: vec!["C11"],
-            mix: Mix { rich_info: true, commit: 7, meldrefresh: 6, meld: 3, filecopy: 3, foreign: 2, ..base },
+            mix: Mix { rich_info: true, commit: 7, meldrefresh: 6, meld: 3, filecopy: 3, foreign: 2, faultymeld: 2, ..base },
             max_len: len(50, 120),
             n_min: 2,
             n_max: 4,
@@ -157,7 +157,7 @@ pub fn hist_cfg(id: &str, thorough: bool) -> Option<HistCfg> {
         "C13" => HistCfg {
             id: "C13",
             on: vec!["C13"],
-            mix: Mix { rich_info: true, timetravel: 2, commit: 7, ..base },
+            mix: Mix { rich_info: true, timetravel: 2, commit: 7, faultymeld: 1, ..base },
             max_len: len(60, 120),
             n_min: 2,
             n_max: 4,
@@ -187,10 +187,21 @@ pub fn hist_cfg(id: &str, thorough: bool) -> Option<HistCfg> {
             nontrivial: |k| c(k, "c15_rich_stage") > 0 || c(k, "c15_stage_with_marker") > 0,
             rule: "history with unstage and export/unstage/replay round trips, refresh/reload/reload_until attempted with staged changes, commits during which one storage write fails (the changes must stay staged); non-trivial = a discarded or replayed stage holding at least three of: revision chain >=2, creation, deletion, resolution marker (or any marker)",
         },
+        "C16" => HistCfg {
+            id: "C16",
+            on: vec!["C16", "C03"],
+            mix: Mix { update: 12, commit: 5, meldrefresh: 7, snapshot: 3, resolve: 1, reopen: 2, unstage: 1, filecopy: 1, timetravel: 0, ..base },
+            max_len: len(50, 110),
+            n_min: 2,
+            n_max: 3,
+            with_fin: true,
+            nontrivial: |k| c(k, "c16_new_versions_while_an_array_is_in_conflict") > 0 && c(k, "c16_new_versions_checked") >= 5,
+            rule: "multi-replica history with concurrent edits of the same flattened arrays, snapshots, commits and reopenings; every array version stored by an update (new revision of the array descriptor) is rebuilt from the stored descriptors with the reference script applier and must equal the submitted array, also while the array is in conflict (script against the winner's own order, not the merged view) and whatever is cached; after every commit a freshly opened replica must show the same arrays; non-trivial = >=5 versions checked, one of them created while an array was in conflict",
+        },
         "C19" => HistCfg {
             id: "C19",
             on: vec!["C19"],
-            mix: Mix { resolve: 3, ..base },
+            mix: Mix { resolve: 3, lowlevel: 2, unstage: 2, ..base },
             max_len: len(50, 100),
             n_min: 2,
             n_max: 3,
@@ -222,6 +233,8 @@ pub fn fin_plan(n_max: u8) -> BoxedStrategy<FinPlan> {
         churn: 0,
         faultycommit: 0,
         foreign: 0,
+        faultymeld: 0,
+        snaprace: 0,
         rich: false,
         rich_info: false,
     };
